@@ -660,11 +660,27 @@ func normalizedDirectoryString(v asn1.RawValue) (string, bool) {
 
 	var s string
 	switch v.Tag {
-	case asn1.TagUTF8String, asn1.TagPrintableString, asn1.TagIA5String, asn1.TagT61String, asn1.TagGeneralString:
-		// 8-bit string types: the content octets are the (ASCII/UTF-8/Latin-1) text.
+	case asn1.TagUTF8String, asn1.TagPrintableString, asn1.TagIA5String, asn1.TagGeneralString:
+		// 8-bit string types: the content octets are the (ASCII/UTF-8) text.
 		s = string(v.Bytes)
+	case asn1.TagT61String:
+		// TeletexString: read as ISO 8859-1 (as crypto/x509 does), one character per octet
+		runes := make([]rune, len(v.Bytes))
+		for i, b := range v.Bytes {
+			runes[i] = rune(b)
+		}
+		s = string(runes)
 	case asn1.TagBMPString:
 		s = decodeBMPString(v.Bytes)
+	case 28: // UniversalString: UCS-4, four octets per character
+		if len(v.Bytes)%4 != 0 {
+			return "", false
+		}
+		runes := make([]rune, len(v.Bytes)/4)
+		for i := range runes {
+			runes[i] = rune(uint32(v.Bytes[4*i])<<24 | uint32(v.Bytes[4*i+1])<<16 | uint32(v.Bytes[4*i+2])<<8 | uint32(v.Bytes[4*i+3]))
+		}
+		s = string(runes)
 	default:
 		return "", false
 	}
